@@ -3,6 +3,8 @@ from props_common import BASE_TB
 PROP = {
     "modules": ["YorkieModel.Props.C02"],
     "engines": [
+        # integrated engine: real client SDK + real in-process server (memory DB), traffic captured at the HTTP transport
+        {"name": "srv", "args": ["orc=c02"], "quick": {"n": 480, "workers": 8}, "thorough": {"n": 12000, "workers": 14}},
         {"name": "fdoc", "args": ["mix=c02"],
          "quick": {"n": 6400, "workers": 8}, "thorough": {"n": 40000, "workers": 14}},
     ],
